@@ -223,3 +223,69 @@ spec fn join_dots(p: Seq<Seq<char>>) -> Seq<char> decreases p.len() {
 spec fn split_dots_ok(s: Seq<char>, p: Seq<Seq<char>>) -> bool {
     join_dots(p) == s && forall|i: int| 0 <= i < p.len() ==> !(#[trigger] p[i]).contains('.')
 }
+
+// ---- shape of an issued payload (C05.shape) ----
+// a placeholder as the issuer writes it: exactly {"...": "<digest>"}
+spec fn placeholder1(e: J) -> bool { e is Obj && e->Obj_0.len() == 1 && e->Obj_0[0].0 == K_DOTS() && e->Obj_0[0].1 is Str }
+// the `_sd` member, if any, is an array of strings
+spec fn sd_strs(m: Seq<(Seq<char>, J)>) -> Seq<J> { match j_get(m, K_SD()) { Some(J::Arr(ds)) => ds, _ => Seq::empty() } }
+spec fn all_str(ds: Seq<J>) -> bool { forall|i: int| 0 <= i < ds.len() ==> (#[trigger] ds[i]) is Str }
+spec fn sd_member_ok(m: Seq<(Seq<char>, J)>) -> bool { match j_get(m, K_SD()) { None => true, Some(J::Arr(ds)) => all_str(ds), Some(_) => false } }
+
+// shape of an issued payload (postcondition C05.shape of the issuer): unique member names, `_sd` an array of strings,
+// no `...` member in ordinary objects, array placeholders exactly {"...": digest}
+spec fn pwf(j: J) -> bool decreases j {
+    match j {
+        J::Arr(a) => pwf_seq(a),
+        J::Obj(m) => keys_unique(m) && !j_has(m, K_DOTS()) && sd_member_ok(m) && pwf_entries(m),
+        _ => true,
+    }
+}
+spec fn pwf_seq(s: Seq<J>) -> bool decreases s {
+    if s.len() == 0 { true } else { pwf_seq(s.drop_last()) && (placeholder1(s.last()) || (pwf(s.last()) && !is_placeholder(s.last()))) }
+}
+spec fn pwf_entries(s: Seq<(Seq<char>, J)>) -> bool decreases s {
+    if s.len() == 0 { true } else { pwf_entries(s.drop_last()) && (s.last().0 == K_SD() || pwf(s.last().1)) }
+}
+
+
+proof fn lemma_pwf_entries_push(s: Seq<(Seq<char>, J)>, e: (Seq<char>, J))
+    requires pwf_entries(s), e.0 == K_SD() || pwf(e.1)
+    ensures pwf_entries(s.push(e))
+{ assert(s.push(e).drop_last() =~= s); }
+proof fn lemma_pwf_entries_update_sd(s: Seq<(Seq<char>, J)>, i: int, v: J)
+    requires pwf_entries(s), 0 <= i < s.len(), s[i].0 == K_SD()
+    ensures pwf_entries(s.update(i, (K_SD(), v)))
+    decreases s.len()
+{
+    let t = s.update(i, (K_SD(), v));
+    if i == s.len() - 1 { assert(t.drop_last() =~= s.drop_last()); }
+    else { assert(t.drop_last() =~= s.drop_last().update(i, (K_SD(), v))); lemma_pwf_entries_update_sd(s.drop_last(), i, v); }
+}
+proof fn lemma_pwf_entries_remove(s: Seq<(Seq<char>, J)>, i: int)
+    requires pwf_entries(s), 0 <= i < s.len()
+    ensures pwf_entries(s.remove(i))
+    decreases s.len()
+{
+    let t = s.remove(i);
+    if i == s.len() - 1 { assert(t =~= s.drop_last()); }
+    else { assert(t.drop_last() =~= s.drop_last().remove(i)); assert(t.last() == s.last()); lemma_pwf_entries_remove(s.drop_last(), i); }
+}
+proof fn lemma_unique_update_same_key(s: Seq<(Seq<char>, J)>, i: int, v: J)
+    requires keys_unique(s), 0 <= i < s.len()
+    ensures keys_unique(s.update(i, (s[i].0, v)))
+{
+    let t = s.update(i, (s[i].0, v));
+    assert forall|a: int, b: int| 0 <= a < b < t.len() implies t[a].0 != t[b].0 by { assert(s[a].0 != s[b].0); }
+}
+proof fn lemma_unique_remove(s: Seq<(Seq<char>, J)>, i: int)
+    requires keys_unique(s), 0 <= i < s.len()
+    ensures keys_unique(s.remove(i))
+{
+    let t = s.remove(i);
+    assert forall|a: int, b: int| 0 <= a < b < t.len() implies t[a].0 != t[b].0 by {
+        let a0 = if a < i { a } else { a + 1 }; let b0 = if b < i { b } else { b + 1 };
+        assert(s[a0].0 != s[b0].0);
+    }
+}
+proof fn lemma_str_js_all_str(ss: Seq<Seq<char>>) ensures all_str(str_js(ss)) {}
